@@ -11,12 +11,22 @@ pub struct Algebraic {
 impl Algebraic {
     /// minimal_poly should be irreducible in Z\[x\].
     pub fn new(minimal_poly: Polynomial<BigInt>) -> Self {
-        Algebraic {
-            min_poly: minimal_poly,
-            expr: Polynomial::from_raw(vec![
+        // The representative of x must have degree < deg(minimal_poly):
+        // modulo a linear polynomial c1 x + c0, x is the constant -c0 / c1.
+        let expr = if minimal_poly.deg() == 1 {
+            Polynomial::from_raw(vec![BigRational::new(
+                -minimal_poly.coef_at(0),
+                minimal_poly.coef_at(1),
+            )])
+        } else {
+            Polynomial::from_raw(vec![
                 BigRational::from_integer(0.into()),
                 BigRational::from_integer(1.into()),
-            ]),
+            ])
+        };
+        Algebraic {
+            min_poly: minimal_poly,
+            expr,
         }
     }
     pub fn with_expr(minimal_poly: Polynomial<BigInt>, expr: Polynomial<BigRational>) -> Self {
